@@ -3,13 +3,8 @@ import hashlib, json
 
 
 def sig(rec, clauses):
-    s = {"kernel": rec.get("k"), "tagclass": rec.get("tag") or rec.get("vt") or rec.get("via"),
-         "value_type": rec.get("vtag") or rec.get("vt"), "finding": "other"}
-    # classification for known_findings.json (proposed_fixes/C16-qr-wide-view-conjugation.md): the wide branch of
-    # QR::solve conjugates the first rows*cols *contiguous* elements; only a complex, wide (rows < cols), non-packed view
-    if rec.get("k") == "qrview" and rec.get("vt") == "complex" and rec.get("rows", 0) < rec.get("cols", 0) and rec.get("pad", 0) > 0:
-        s["finding"] = "qr-wide-view-conjugation"
-    return s
+    return {"kernel": rec.get("k"), "tagclass": rec.get("tag") or rec.get("vt") or rec.get("via"),
+            "value_type": rec.get("vtag") or rec.get("vt")}
 
 
 def split_drift(c, res):
